@@ -159,7 +159,8 @@ Inductive rsim : ret -> ret -> Prop :=
 | rs_bin f f' r1 r1' r2 r2' : rsim r1 r1' -> rsim r2 r2' ->
     (forall x1 x2, vgood x1 -> vgood x2 -> f x1 x2 = f' x1 x2 /\ forall y, f x1 x2 = Ok y -> vgood y) ->
     rsim (RBin f r1 r2) (RBin f' r1' r2')
-| rs_raise e : rsim (RRaise e) (RRaise e).
+| rs_raise e : rsim (RRaise e) (RRaise e)
+| rs_try c r1 r1' r2 r2' : rsim r1 r1' -> rsim r2 r2' -> rsim (RTry c r1 r2) (RTry c r1' r2').
 
 Hypothesis Hcb : forall st rs, rsim (cb1 st rs) (cb2 st rs).
 
@@ -182,7 +183,8 @@ Lemma cev_sim rec1 rec2 : rec_ok rec1 rec2 -> forall r r', rsim r r' ->
   forall s, cev rec1 r s = cev rec2 r' s /\ forall s' v, cev rec1 r s = (s', Ok v) -> vgood v.
 Proof.
   intros Hrec r r' Hs.
-  induction Hs as [o|h Hh|st lim|f f' r r' Hr IH Hf|f f' r1 r1' r2 r2' Hr1 IH1 Hr2 IH2 Hf|e]; intros s;
+  induction Hs as [o|h Hh|st lim|f f' r r' Hr IH Hf|f f' r1 r1' r2 r2' Hr1 IH1 Hr2 IH2 Hf|e
+                   |catch r1 r1' r2 r2' Hr1 IH1 Hr2 IH2]; intros s;
     cbn [cev].
   - split; [reflexivity|]. intros s' v E. injection E as _ <-. exact I.
   - split; [reflexivity|]. intros s' v E. injection E as _ <-. exact Hh.
@@ -201,6 +203,9 @@ Proof.
       * split; [reflexivity|]. intros s' v E'. discriminate.
     + split; [reflexivity|]. intros s' v E'. discriminate.
   - split; [reflexivity|]. intros s' v E'. discriminate.
+  - destruct (IH1 s) as [E1 G1]. rewrite <- E1. destruct (cev rec1 r1 s) as [s1 [x1|e]].
+    + split; [reflexivity|]. intros s' v E'. injection E' as <- <-. apply (G1 s1). reflexivity.
+    + destruct (catch e); [apply IH2|]. split; [reflexivity|]. intros s' v E'. discriminate.
 Qed.
 
 Lemma cloop_sim ev1 ev2 l cur tot st :
